@@ -1,4 +1,4 @@
-\* quick: extent-map query, inline refill, refill unit = 1 block, 2 readers x 1 read of 3 ranges, 1 eviction (explicit or sweep), 1 source fault
+\* thorough: extent map, asynchronous writer, capacity 0 + 1 external eviction
 SPECIFICATION Spec
 CONSTANTS
   NF = 1
@@ -8,14 +8,14 @@ CONSTANTS
   Readers = {r1, r2}
   r1 = r1
   r2 = r2
-  ReadSet <- RS_q3
+  ReadSet <- RS_q
   NReads = 1
   MaxEv = 1
-  Async = FALSE
+  Async = TRUE
   MaxRefilling = 2
-  Faults = 1
+  Faults = 0
   Fiemap = TRUE
-  CapFull = FALSE
+  CapFull = TRUE
   ReopenMax = 0
   Bug = "none"
 SYMMETRY Sym
